@@ -186,22 +186,26 @@ theorem body_state (s0 : FS) (tmp : FName) (ino : Ino) (mode : Nat) (chunks : Li
     simpa using hdat
   · simp [run, step]
 
-theorem crash_old_or_new_aux (s0 : FS) (path tmp : FName) (ino : Ino) (mode : Nat) (chunks : List Bytes)
+/-- The general form: ANY sequence of calls on the temp file only (create, chmod, any number of writes and
+    fsyncs, close, in any order) after which the temp name points at a clean inode holding `new`, followed by
+    the rename onto the target. -/
+theorem crash_old_or_new_general (s0 : FS) (path tmp : FName) (ino : Ino) (bodyOps : List Sys) (new : Bytes)
     (hq : s0.past = [] ∧ s0.dirty = [])
     (htmp : tmp ≠ path)
     (hino : ∀ i, dirLookup s0.dir path = some i → i ≠ ino)
-    (pre : List Sys) (hpre : pre <+: atomicWrite path tmp ino mode chunks)
+    (hbody : ∀ op ∈ bodyOps, TmpOnly tmp ino op)
+    (hstate : dirLookup (run bodyOps s0).dir tmp = some ino ∧ dataLookup (run bodyOps s0).data ino = some new ∧
+      ino ∉ (run bodyOps s0).dirty)
+    (pre : List Sys) (hpre : pre <+: bodyOps ++ [Sys.rename tmp path])
     (d : Dir) (content : Ino → Option Bytes) (hcv : CrashView (run pre s0) d content) :
-    readFile d content path = readNow s0 path ∨ readFile d content path = some chunks.flatten := by
-  rw [atomicWrite_eq, List.prefix_concat_iff] at hpre
-  have hbodyInv : Inv s0 (run (body tmp ino mode chunks) s0) path :=
-    inv_run htmp hino _ _ (inv_init s0 path hq) (body_tmpOnly tmp ino mode chunks)
+    readFile d content path = readNow s0 path ∨ readFile d content path = some new := by
+  rw [List.prefix_concat_iff] at hpre
+  have hbodyInv : Inv s0 (run bodyOps s0) path := inv_run htmp hino _ _ (inv_init s0 path hq) hbody
   rcases hpre with rfl | hpre
-  · -- the whole sequence, rename included
-    obtain ⟨htd, hdat, hclean⟩ := body_state s0 tmp ino mode chunks
+  · obtain ⟨htd, hdat, hclean⟩ := hstate
     rw [run_append] at hcv
     simp only [run, List.foldl_cons, List.foldl_nil] at hcv hbodyInv htd hdat hclean
-    generalize List.foldl step s0 (body tmp ino mode chunks) = s1 at hcv hbodyInv htd hdat hclean
+    generalize List.foldl step s0 bodyOps = s1 at hcv hbodyInv htd hdat hclean
     simp only [step, htd] at hcv
     obtain ⟨hdir, hc⟩ := hcv
     simp only at hdir hc
@@ -212,8 +216,19 @@ theorem crash_old_or_new_aux (s0 : FS) (path tmp : FName) (ino : Ino) (mode : Na
       simp at hmem
       exact crash_reads_old hbodyInv ⟨by rcases hmem with rfl | h; exact Or.inl rfl; exact Or.inr h, hc⟩
   · left
-    have hall : ∀ op ∈ pre, TmpOnly tmp ino op := fun op hop => body_tmpOnly tmp ino mode chunks op (hpre.subset hop)
+    have hall : ∀ op ∈ pre, TmpOnly tmp ino op := fun op hop => hbody op (hpre.subset hop)
     exact crash_reads_old (inv_run htmp hino _ _ (inv_init s0 path hq) hall) hcv
+
+theorem crash_old_or_new_aux (s0 : FS) (path tmp : FName) (ino : Ino) (mode : Nat) (chunks : List Bytes)
+    (hq : s0.past = [] ∧ s0.dirty = [])
+    (htmp : tmp ≠ path)
+    (hino : ∀ i, dirLookup s0.dir path = some i → i ≠ ino)
+    (pre : List Sys) (hpre : pre <+: atomicWrite path tmp ino mode chunks)
+    (d : Dir) (content : Ino → Option Bytes) (hcv : CrashView (run pre s0) d content) :
+    readFile d content path = readNow s0 path ∨ readFile d content path = some chunks.flatten := by
+  rw [atomicWrite_eq] at hpre
+  exact crash_old_or_new_general s0 path tmp ino (body tmp ino mode chunks) chunks.flatten hq htmp hino
+    (body_tmpOnly tmp ino mode chunks) (body_state s0 tmp ino mode chunks) pre hpre d content hcv
 
 theorem complete_write_aux (s0 : FS) (path tmp : FName) (ino : Ino) (mode : Nat) (chunks : List Bytes)
     (hq : s0.past = [] ∧ s0.dirty = [])
@@ -225,6 +240,35 @@ theorem complete_write_aux (s0 : FS) (path tmp : FName) (ino : Ino) (mode : Nat)
   simp only [run, List.foldl_cons, List.foldl_nil] at htd hdat ⊢
   generalize List.foldl step s0 (body tmp ino mode chunks) = s1 at htd hdat
   simp [step, htd, readNow, readFile, dirLookup, hdat]
+
+/-! ## the protocol predicate on the modelled sequence -/
+
+def wev : SysEv := ⟨.write, false⟩
+
+theorem writes_facts (n : Nat) (tail : List SysEv) :
+    (List.replicate n wev ++ tail).takeWhile (fun e => !(e.kind == .rename)) = List.replicate n wev ++ tail.takeWhile (fun e => !(e.kind == .rename)) ∧
+    (List.replicate n wev ++ tail).dropWhile (fun e => !(e.kind == .rename)) = tail.dropWhile (fun e => !(e.kind == .rename)) := by
+  induction n with
+  | zero => simp
+  | succ n ih =>
+    simp only [List.replicate_succ, List.cons_append]
+    have : (!(wev.kind == SysKind.rename)) = true := by decide
+    simp [List.takeWhile_cons, List.dropWhile_cons, this, ih.1, ih.2]
+
+theorem writes_all (n : Nat) : (List.replicate n wev).all
+    (fun e => !e.onTarget && (e.kind == .chmod || e.kind == .write || e.kind == .fsync || e.kind == .close)) = true := by
+  induction n with
+  | zero => rfl
+  | succ n ih => simp [List.replicate_succ, wev]
+
+theorem protocol_writes (n : Nat) :
+    protocolWord (⟨.mkstemp, false⟩ :: ⟨.chmod, false⟩ :: (List.replicate n wev ++ [⟨.fsync, false⟩, ⟨.close, false⟩, ⟨.rename, true⟩])) = true := by
+  obtain ⟨h1, h2⟩ := writes_facts n [⟨.fsync, false⟩, ⟨.close, false⟩, ⟨.rename, true⟩]
+  unfold protocolWord
+  simp only [List.dropWhile_cons, show ((SysKind.mkstemp == SysKind.unlink) && !false) = false by decide, Bool.false_eq_true, if_false]
+  simp only [List.takeWhile_cons, List.dropWhile_cons, show (!(SysKind.chmod == SysKind.rename)) = true by decide, if_true, h1, h2]
+  simp [List.takeWhile, List.dropWhile, syncedAtEnd, List.all_append, writes_all n]
+
 
 /-! ## litter: the only name a crash can leave behind is the temp file -/
 
